@@ -17,6 +17,9 @@ REPORT_TEXT = {
 }
 
 
+SIDE_FILES = {"info": "side-info.tsv", "rest": "side-rest.txt", "wildcard": "side-wildcard.txt"}
+
+
 # ------------------------------------------------------------------------ scenario
 @st.composite
 def routing_case(draw, sub, focus="filters"):
@@ -145,6 +148,10 @@ def routing_case(draw, sub, focus="filters"):
     sc["f"] = f
     sc["out"] = out
     sc["report"] = draw(st.sampled_from(["full", "full", "minimal"]))
+    # side outputs (info/rest/wildcard files) wrap extra steps around the pipeline; they must not change
+    # where a read goes.  Drawn last so that earlier draws keep their meaning.
+    if draw(st.integers(0, 3)) == 0:
+        sc["side"] = draw(st.lists(st.sampled_from(["info", "rest", "wildcard"]), min_size=1, max_size=2, unique=True))
     return sc
 
 
@@ -187,6 +194,8 @@ def render(sc):
     redirect("too_long_output", "too_long", "--too-long-output", "--too-long-paired-output", "tl")
     redirect("untrimmed_output", "untrimmed_output", "--untrimmed-output", "--untrimmed-paired-output", "ut")
     args += ["--json", "rep.json"]
+    for side in sc.get("side", []):
+        args += [f"--{side}-file", SIDE_FILES[side]]
     if sc.get("report") == "minimal":
         args += ["--report", "minimal"]
     w = cli.fastq if sc["fastq"] else cli.fasta
@@ -290,6 +299,13 @@ def evaluate(sc):
     return ev
 
 
+def side_labels(sc, ev, ctx):
+    for side in sc.get("side", []):
+        ctx.label("side-output:" + side)
+    if sc.get("side") and any(len(x[0][1]) == 0 or (x[1] is not None and len(x[1][1]) == 0) for x in ev.finals):
+        ctx.label("side-output-with-empty-read")
+
+
 # ------------------------------------------------------------------------ clauses
 def clause_membership(sc, ev):
     """Every destination file holds exactly the reads the documented criteria send there, in input order."""
@@ -307,7 +323,7 @@ def clause_membership(sc, ev):
                     f"file {n} ({fate}) of {ev.args}: got reads {ids_got}, documented criteria give {ids_exp}"
                     + ("" if ids_got != ids_exp else " (same reads, different content)"),
                     observed=got, expected=exp, tag="membership")
-    extra = set(ev.result.files) - set(n for names in ev.dest.values() for n in names) - {"rep.json"}
+    extra = set(ev.result.files) - set(n for names in ev.dest.values() for n in names) - {"rep.json"} - set(SIDE_FILES.values())
     if extra:
         raise Violation(f"unexpected output files {sorted(extra)} from {ev.args}", tag="extra-files")
 
